@@ -130,7 +130,7 @@ impl Scanner {
     //@  rewrite R8
     //@  sig "-> &str" => "-> StrSlice"
     //@  subst "str_slice(self.source," => "str_slice(&self.source,"
-    //@  subst "return \"\";" => "return empty_slice(&self.source);"
+    //@  subst "\"\"" => "empty_slice(&self.source)"
     //@  requires self.wf()
     //@  ensures r.src == self.source
     //@  ensures self.current >= self.source.blen() ==> r.a == r.b
